@@ -1,7 +1,7 @@
 #!/bin/bash
 # seeded_all.sh: re-run the whole seeded-change campaign (quick checks) and print one verdict line per change.
-# Uses /repo itself (apply / check / undo), so nothing else may build from /repo while it runs.
-cd /verif
+# Uses $REPO (default /repo) itself (apply / check / undo), so nothing else may build from /repo while it runs.
+cd "$(dirname "$0")/.."
 for d in seeded/*/; do
   id=$(basename $d); [ -f $d/patch.diff ] || continue
   prop=${id:0:3}
